@@ -9,6 +9,7 @@ import Driver.C15
 import Driver.C10
 import Driver.C13
 import Driver.C14
+import Driver.C16
 /-!
 # Line-protocol driver
 
@@ -30,6 +31,9 @@ def dispatch (inp obs : List String) : Verdict :=
   | some "C10" => Driver.C10.run inp obs
   | some "C13" => Driver.C13.run inp obs
   | some "C14" => Driver.C14.run inp obs
+  | some "C16" => Driver.C16.run inp obs
+  | some "C16path" => Driver.C16.runPath inp obs
+  | some "C16pp" => Driver.C16.runPair inp obs
   | _ => { agree := false, model := "unknown-model" }
 
 partial def loop (h : IO.FS.Stream) (out : IO.FS.Stream) : IO Unit := do
